@@ -98,14 +98,18 @@ class Lexer:
 
     key_pattern = r"[\u0080-\U0010FFFFa-zA-Z_][\u0080-\U0010FFFFa-zA-Z0-9_-]*"
 
+    # A reserved word, or an identifier token made of name characters, ends where
+    # a name would end. `\b` is not enough: `in-stock` and `_foo` are names.
+    name_end_pattern = r"(?![\u0080-\U0010FFFFa-zA-Z0-9_-])"
+
     # `not` or !
-    logical_not_pattern = r"(?:not\b)|!"
+    logical_not_pattern = rf"(?:not{name_end_pattern})|!"
 
     # && or `and`
-    logical_and_pattern = r"&&|(?:and\b)"
+    logical_and_pattern = rf"&&|(?:and{name_end_pattern})"
 
     # || or `or`
-    logical_or_pattern = r"\|\||(?:or\b)"
+    logical_or_pattern = rf"\|\||(?:or{name_end_pattern})"
 
     def __init__(self, *, env: JSONPathEnvironment) -> None:
         self.env = env
@@ -162,7 +166,7 @@ class Lexer:
             (TOKEN_AND, self.logical_and_pattern),
             (TOKEN_OR, self.logical_or_pattern),
             *[
-                (token, re.escape(pattern))
+                (token, self._env_token_pattern(pattern))
                 for token, pattern in sorted(
                     env_tokens, key=lambda x: len(x[1]), reverse=True
                 )
@@ -170,15 +174,15 @@ class Lexer:
             ],
             (TOKEN_WILD, r"\*"),
             (TOKEN_FILTER, r"\?"),
-            (TOKEN_IN, r"in\b"),
-            (TOKEN_TRUE, r"[Tt]rue\b"),
-            (TOKEN_FALSE, r"[Ff]alse\b"),
-            (TOKEN_NIL, r"[Nn]il\b"),
-            (TOKEN_NULL, r"[Nn]ull\b"),
-            (TOKEN_NONE, r"[Nn]one\b"),
-            (TOKEN_CONTAINS, r"contains\b"),
-            (TOKEN_UNDEFINED, r"undefined\b"),
-            (TOKEN_MISSING, r"missing\b"),
+            (TOKEN_IN, rf"in{self.name_end_pattern}"),
+            (TOKEN_TRUE, rf"[Tt]rue{self.name_end_pattern}"),
+            (TOKEN_FALSE, rf"[Ff]alse{self.name_end_pattern}"),
+            (TOKEN_NIL, rf"[Nn]il{self.name_end_pattern}"),
+            (TOKEN_NULL, rf"[Nn]ull{self.name_end_pattern}"),
+            (TOKEN_NONE, rf"[Nn]one{self.name_end_pattern}"),
+            (TOKEN_CONTAINS, rf"contains{self.name_end_pattern}"),
+            (TOKEN_UNDEFINED, rf"undefined{self.name_end_pattern}"),
+            (TOKEN_MISSING, rf"missing{self.name_end_pattern}"),
             (TOKEN_LIST_START, r"\["),
             (TOKEN_RBRACKET, r"]"),
             (TOKEN_COMMA, r","),
@@ -202,6 +206,13 @@ class Lexer:
             "|".join(f"(?P<{token}>{pattern})" for token, pattern in rules),
             re.DOTALL,
         )
+
+    def _env_token_pattern(self, token: str) -> str:
+        pattern = re.escape(token)
+        if re.fullmatch(self.key_pattern, token):
+            # `_foo` is a name, not `_` followed by `foo`.
+            pattern += self.name_end_pattern
+        return pattern
 
     def tokenize(self, path: str) -> Iterator[Token]:  # noqa PLR0912
         """Generate a sequence of tokens from a JSONPath string."""
